@@ -173,41 +173,56 @@ type c09Env struct {
 	aclose chan struct{}
 	closed bool
 	diverged bool
+	toks   []string
+	expMs  int
+	slowMs int32
 }
 
 func c09NewEnv(toks []string, expMs int) *c09Env {
 	e := &c09Env{ctl: newC09Ctl(), max: c09Cfg(toks, "max", 1), async: map[int]chan string{}, byName: map[int]*c09Job{}}
 	e.q = fpgo.NewBufferedChannelQueue[func()](c09Cfg(toks, "c", 1), c09Cfg(toks, "b", 0), 16).
 		SetLoadFromPoolDuration(time.Millisecond / 2)
+	e.toks, e.expMs = toks, expMs
 	// Start from the zero settings (workerSizeMaximum 0: nothing can be spawned) and set the maximum last, so
 	// that the spawn loop never acts on a half-configured pool.
-	sb := c09Cfg(toks, "sb", 1)
-	e.pool = worker.NewDefaultWorkerPool(e.q, &worker.DefaultWorkerPoolSettings{}).
-		SetSpawnWorkerDuration(time.Millisecond).
-		SetWorkerExpiryDuration(c09Dur(expMs)).
-		SetWorkerJamDuration(c09Dur(c09Cfg(toks, "jam", 0))).
-		SetScheduleRetryInterval(2 * time.Millisecond).
-		SetWorkerSizeStandBy(sb).
-		SetWorkerBatchSize(c09Cfg(toks, "batch", 0)).
-		SetIsJobQueueClosedWhenClose(c09Cfg(toks, "cq", 1) == 1)
-	defer func() {
-		e.pool.SetWorkerSizeMaximum(e.max)
-		want := sb
-		if e.max < want {
-			want = e.max
-		}
-		c09Until(c09Wait, func() bool { wc, _ := e.pool.VerifCounts(); return wc == want && c09SpawnIdle() })
-	}()
-	e.pool.SetPanicHandler(func(p interface{}) {
-		if v, ok := p.(int); ok {
-			e.hmu.Lock()
-			e.han = append(e.han, [2]int{v / 1000, v % 1000})
-			e.hmu.Unlock()
-		} else {
-			atomic.AddInt32(&e.foreign, 1)
-		}
-	})
+	e.pool = worker.NewDefaultWorkerPool(e.q, &worker.DefaultWorkerPoolSettings{})
+	e.applySettings()
+	e.pool.SetPanicHandler(e.recorder)
+	e.raiseMaximum()
 	return e
+}
+
+func (e *c09Env) recorder(p interface{}) {
+	if ms := atomic.LoadInt32(&e.slowMs); ms > 0 {
+		time.Sleep(time.Duration(ms) * time.Millisecond)
+	}
+	if v, ok := p.(int); ok {
+		e.hmu.Lock()
+		e.han = append(e.han, [2]int{v / 1000, v % 1000})
+		e.hmu.Unlock()
+	} else {
+		atomic.AddInt32(&e.foreign, 1)
+	}
+}
+
+// every setting except the maximum (which stays 0 until raiseMaximum: nothing can be spawned meanwhile)
+func (e *c09Env) applySettings() {
+	e.pool.SetSpawnWorkerDuration(time.Millisecond).
+		SetWorkerExpiryDuration(c09Dur(e.expMs)).
+		SetWorkerJamDuration(c09Dur(c09Cfg(e.toks, "jam", 0))).
+		SetScheduleRetryInterval(2 * time.Millisecond).
+		SetWorkerSizeStandBy(c09Cfg(e.toks, "sb", 1)).
+		SetWorkerBatchSize(c09Cfg(e.toks, "batch", 0)).
+		SetIsJobQueueClosedWhenClose(c09Cfg(e.toks, "cq", 1) == 1)
+}
+
+func (e *c09Env) raiseMaximum() {
+	e.pool.SetWorkerSizeMaximum(e.max)
+	want := c09Cfg(e.toks, "sb", 1)
+	if e.max < want {
+		want = e.max
+	}
+	c09Until(c09Wait, func() bool { wc, _ := e.pool.VerifCounts(); return wc >= want && c09SpawnIdle() })
 }
 
 // job k of the given kind; slowUs > 0 makes it sleep
@@ -299,8 +314,9 @@ func c09SpawnIdle() bool {
 			if !strings.Contains(head, "[chan receive") {
 				return false
 			}
-		} else if strings.Contains(g, ".generateWorkerWithMaximum.func1") {
-			// a worker: in its select, inside a gated job, or held at a park point — anything else is in motion
+		} else if strings.Contains(g, "fpGo/v2/worker.(*DefaultWorkerPool)") || strings.Contains(g, "fpGo/v2.(*BufferedChannelQueue") {
+			// a worker (in its select, inside a gated job, held at a park point), a caller held inside the pool,
+			// the queue's loader / node recycler waiting for a wake-up — anything else is in motion
 			if !strings.Contains(head, "[select") && !strings.Contains(head, "[chan receive") {
 				return false
 			}
@@ -317,12 +333,46 @@ func (e *c09Env) bound() time.Duration {
 	}
 	return c09Wait
 }
+// until waits for cond.  It gives up early when nothing can change any more: every goroutine inside the pool or
+// the queue is blocked (select / channel receive; a runnable or sleeping one does not count) and the counters
+// have not moved for half a second — then the run has left the predicted path and waiting longer is pointless.
 func (e *c09Env) until(cond func() bool) bool {
-	ok := c09Until(e.bound(), cond)
-	if !ok {
-		e.diverged = true
+	deadline := time.Now().Add(e.bound())
+	sig := func() string {
+		wc, wb := e.pool.VerifCounts()
+		e.ctl.mu.Lock()
+		a, p := 0, 0
+		for _, n := range e.ctl.arrived {
+			a += n
+		}
+		for _, l := range e.ctl.parked {
+			p += len(l)
+		}
+		e.ctl.mu.Unlock()
+		return fmt.Sprint(wc, wb, atomic.LoadInt32(&e.finTot), atomic.LoadInt32(&e.cur), a, p)
 	}
-	return ok
+	last, since := "", time.Now()
+	for {
+		if cond() {
+			return true
+		}
+		now := time.Now()
+		if now.After(deadline) {
+			break
+		}
+		if c09SpawnIdle() {
+			if s := sig(); s != last {
+				last, since = s, now
+			} else if now.Sub(since) > 500*time.Millisecond {
+				break
+			}
+		} else {
+			last = ""
+		}
+		time.Sleep(300 * time.Microsecond)
+	}
+	e.diverged = true
+	return false
 }
 
 func (e *c09Env) settle() { e.until(c09SpawnIdle) }
@@ -485,7 +535,28 @@ func (e *c09Env) op(tok string) string {
 		e.pool.PreAllocWorkerSize(num(1))
 		e.settle()
 		return "pre"
+	case "jam":
+		// set while every worker sits in a gated job: the jam rule then depends on nothing that is still moving
+		e.pool.SetWorkerJamDuration(c09Dur(num(1)))
+		e.settle()
+		return "jam"
+	case "nh":
+		e.pool.SetPanicHandler(nil)
+		return "nh"
+	case "sh":
+		e.pool.SetPanicHandler(e.recorder)
+		return "sh"
+	case "nhs":
+		e.pool.SetDefaultWorkerPoolSettings(worker.DefaultWorkerPoolSettings{})
+		e.applySettings()
+		e.raiseMaximum()
+		e.settle()
+		return "nhs"
+	case "hs":
+		atomic.StoreInt32(&e.slowMs, int32(num(1)))
+		return "hs"
 	case "exp":
+		e.expMs = num(1)
 		e.pool.SetWorkerExpiryDuration(c09Dur(num(1)))
 		e.settle()
 		return "exp"
@@ -534,6 +605,7 @@ func c09RunStress(line string) string {
 	seed := int64(c09Cfg(toks, "seed", 1))
 	e := c09NewEnv(toks, c09Cfg(toks, "exp", 0))
 	defer e.cleanup()
+	atomic.StoreInt32(&e.slowMs, int32(c09Cfg(toks, "hs", 0)))
 	if c09Cfg(toks, "jit", 0) == 1 {
 		e.ctl.mu.Lock()
 		e.ctl.jitter = rand.New(rand.NewSource(seed))
@@ -756,6 +828,18 @@ func c09Gen(tier string, rng *rand.Rand, emit func(string)) map[string]interface
 	// a panicking and a normal job side by side: the panic touches nobody else
 	sched("max=2 sb=2 batch=0 c=2 b=0", "s:0:g", "s:1:p5", "w:2/2/0", "r:1", "w:2/1/1", "s:2:f", "w:2/1/2", "r:0", "w:2/0/3")
 
+	// the handler is cleared after construction (SetPanicHandler(nil) / SetDefaultWorkerPoolSettings): a panicking job
+	// must still kill neither the worker pool nor the process, later jobs run, no handler call
+	sched("max=1 sb=1 batch=0 c=2 b=0", "nh", fmt.Sprintf("s:0:q%d", v()), "s:1:f", "w:1/0/2")
+	sched("max=1 sb=1 batch=0 c=2 b=0", fmt.Sprintf("s:0:p%d", v()), "w:1/1/0", "nh", "s:1:f", "r:0", "w:1/0/2")
+	sched("max=1 sb=1 batch=0 c=2 b=0", "nhs", fmt.Sprintf("s:0:q%d", v()), "s:1:f", "w:1/0/2")
+	sched("max=1 sb=1 batch=0 c=2 b=0", "nh", "s:0:q3", "w:1/0/1", "sh", "s:1:q4", "s:2:f", "w:1/0/3")
+	sched("max=2 sb=2 batch=0 c=2 b=0", "nh", "s:0:g", "s:1:p9", "w:2/2/0", "r:1", "w:2/1/1", "s:2:f", "w:2/1/2", "r:0", "w:2/0/3")
+	// a slow panic handler: the dying worker must wake the spawn loop after it has given its slot back
+	sched("max=1 sb=1 batch=0 c=2 b=0", "hs:40", fmt.Sprintf("s:0:p%d", v()), "w:1/1/0", "s:1:f", "r:0", "w:1/0/2")
+	sched("max=2 sb=2 batch=0 c=4 b=0", "hs:40", "s:0:p7", "s:1:p8", "w:2/2/0", "s:2:f", "s:3:f", "r:0", "r:1", "w:2/0/4")
+	sched("max=1 sb=1 batch=0 c=4 b=0", "hs:25", "s:0:q1", "s:1:q2", "s:2:f", "w:1/0/3")
+
 	// (2) expiry race: idle workers above standby expire together while a job is being accepted
 	sched("max=2 sb=1 batch=0 c=2 b=0", "pre:2", "exp:30", "s:0:g", "s:1:g", "w:2/2/0", "park:expiry:1", "r:0", "r:1", "expire:1",
 		"w:1/0/2", "s:2:f", "w:1/0/3", "rel:expiry", "w:1/0/3")
@@ -799,8 +883,8 @@ func c09Gen(tier string, rng *rand.Rand, emit func(string)) map[string]interface
 
 	// (6) the maximum: PreAlloc beyond it, jam rule at it, spawn loop overtaken by PreAlloc
 	sched("max=2 sb=1 batch=0 c=4 b=0", "pre:3", "w:2/0/0", "pre:5", "w:2/0/0", "s:0:g", "s:1:g", "s:2:g", "w:2/2/0", "r:0", "r:1", "r:2", "w:2/0/3")
-	sched("max=1 sb=1 batch=0 c=4 b=0 jam=5", "s:0:g", "w:1/1/0", "sleep:20", "s:1:f", "w:1/1/0", "sleep:20", "s:2:f", "w:1/1/0", "r:0", "w:1/0/3")
-	sched("max=2 sb=1 batch=0 c=4 b=0 jam=5", "s:0:g", "w:1/1/0", "sleep:20", "s:1:g", "w:2/2/0", "sleep:20", "s:2:f", "w:2/2/0", "r:0", "r:1", "w:2/0/3")
+	sched("max=1 sb=1 batch=0 c=4 b=0", "s:0:g", "w:1/1/0", "jam:5", "sleep:20", "s:1:f", "w:1/1/0", "sleep:20", "s:2:f", "w:1/1/0", "jam:0", "r:0", "w:1/0/3")
+	sched("max=2 sb=1 batch=0 c=4 b=0", "s:0:g", "w:1/1/0", "jam:5", "sleep:20", "s:1:g", "w:2/2/0", "sleep:20", "s:2:f", "w:2/2/0", "jam:0", "r:0", "r:1", "w:2/0/3")
 	sched("max=2 sb=2 batch=0 c=4 b=0", "park:tryspawn:1", "s:0:g", "wp:tryspawn:1", "pre:2", "w:2/1/0", "rel:tryspawn", "w:2/1/0", "r:0", "w:2/0/1")
 	sched("max=3 sb=3 batch=0 c=4 b=0", "s:0:g", "s:1:g", "s:2:g", "w:3/3/0", "s:3:f", "r:1", "w:3/2/2", "r:0", "r:2", "w:3/0/4")
 
@@ -883,7 +967,7 @@ func c09Gen(tier string, rng *rand.Rand, emit func(string)) map[string]interface
 	for r := 0; r < rounds; r++ {
 		n := 40 + rng.Intn(60)
 		stress("max=3 sb=1 batch=2 c=2 b=1000 exp=20 n=%d sub=4 pan=%s slow=%s mode=s jit=1 seed=%d", n, pick(n, 5), pick(n, 6), rng.Intn(1000))
-		stress("max=1 sb=1 batch=1 c=1 b=1000 exp=0 n=%d sub=1 pan=%s slow=%s mode=s jit=0 seed=%d", n, pick(n, 8), pick(n, 3), rng.Intn(1000))
+		stress("max=1 sb=1 batch=1 c=1 b=1000 exp=0 n=%d sub=1 pan=%s slow=%s mode=s jit=0 seed=%d hs=3", n, pick(n, 8), pick(n, 3), rng.Intn(1000))
 		stress("max=4 sb=2 batch=1 c=3 b=1000 exp=5 n=%d sub=8 pan=%s slow=%s mode=t jit=1 seed=%d", n, pick(n, 4), pick(n, 10), rng.Intn(1000))
 		stress("max=2 sb=0 batch=1 c=2 b=1000 exp=0 n=%d sub=3 pan=%s slow=%s mode=i jit=1 seed=%d", n, pick(n, 4), pick(n, 5), rng.Intn(1000))
 		stress("max=2 sb=2 batch=0 c=1 b=1000 exp=3 n=%d sub=2 pan=%s slow=%s mode=it jit=0 seed=%d", n, pick(n, 6), pick(n, 5), rng.Intn(1000))
@@ -891,7 +975,7 @@ func c09Gen(tier string, rng *rand.Rand, emit func(string)) map[string]interface
 		stress("max=1 sb=1 batch=0 c=1 b=1 exp=0 n=%d sub=3 pan=%s slow=%s mode=t jit=0 seed=%d tiny=1", n, pick(n, 5), pick(n, 10), rng.Intn(1000))
 	}
 	return map[string]interface{}{"directed_schedules": nd, "stress_cases": ns, "exhaustive": false,
-		"windows": []string{"panic-exit", "expiry-race", "queue-full/timeout", "schedule-closed-check", "worker-closed-check", "close-afterFlag", "afterJob", "tryspawn/PreAlloc", "jam-at-maximum"}}
+		"windows": []string{"nil-handler", "slow-handler", "panic-exit", "expiry-race", "queue-full/timeout", "schedule-closed-check", "worker-closed-check", "close-afterFlag", "afterJob", "tryspawn/PreAlloc", "jam-at-maximum"}}
 }
 
 func init() {
